@@ -207,7 +207,7 @@ def parse_out(output):
         if not line.startswith('"OUT '):
             continue
         txt = line[5:-1].replace('\\"', '"')
-        hist, last, data, refs = lib.parse_tla(txt)
+        hist, last, data, refs = lib.fast_parse_tla(txt)
         rows.append((hist, last, data, refs))
     return rows
 
